@@ -5,6 +5,8 @@ import (
 	"fmt"
 	"math/big"
 	"math/rand"
+	"os"
+	"path/filepath"
 	"strings"
 	"testing"
 
@@ -207,7 +209,7 @@ func (re *reEnv) callArgs(c reCall) (string, []any) {
 	return "setConfig", []any{c.ID, c.Key, c.Val}
 }
 
-func runVoteReentry(t testing.TB, st *Stats, distinct map[string]bool, name string, n int, fund int64, ops []reOp) (fired int) {
+func runVoteReentry(t testing.TB, vc *voteCoq, st *Stats, distinct map[string]bool, name string, n int, fund int64, ops []reOp) (fired int, coqCase string) {
 	alpha := make([]int, n)
 	for i := range alpha {
 		alpha[i] = i
@@ -219,6 +221,14 @@ func runVoteReentry(t testing.TB, st *Stats, distinct map[string]bool, name stri
 	re.users = [3][]byte{ve.payees[0], ve.payees[1], hc.Hash.BytesBE()}
 	spec := &reSpec{n: n, tally: map[string]*voteTally{}, cfg: map[string][]byte{}}
 	spec.bal = [4]*big.Int{big.NewInt(fund), big.NewInt(0), big.NewInt(0), big.NewInt(0)}
+	var steps []string // the Coq trace
+	rcallCoq := func(c reCall) string {
+		if c.Kind == "cheque" {
+			return fmt.Sprintf("RCheque %s %s %s %s", vc.pool.Ref(c.ID), vc.pool.Ref(re.users[c.User]), ZI(c.Amount), vc.pool.Ref([]byte{7}))
+		}
+		return fmt.Sprintf("RSetConfig %s %s %s", vc.pool.Ref(c.ID), vc.pool.Ref(c.Key), vc.pool.Ref(c.Val))
+	}
+	hRef := vc.pool.Ref(hc.Hash.BytesBE())
 	diverged := false
 	violate := func(k int, what string) {
 		if diverged {
@@ -250,11 +260,18 @@ func runVoteReentry(t testing.TB, st *Stats, distinct map[string]bool, name stri
 			r := ve.Invoke([]neotest.Signer{ve.payer}, re.h, "arm", calls, op.Fault)
 			require.True(t, r.Halt, r.Fault)
 			spec.armed = &reProgram{calls: op.Calls, fault: op.Fault}
+			var cs []string
+			for _, c := range op.Calls {
+				cs = append(cs, rcallCoq(c))
+			}
+			steps = append(steps, fmt.Sprintf("(mkNCtx [] 0 self, %s, VNull)",
+				vc.ops.ref(fmt.Sprintf("RArm %s (mkProg %s %s)", hRef, ListLit(paren(cs)), BoolLit(op.Fault)))))
 			continue
 		case "disarm":
 			r := ve.Invoke([]neotest.Signer{ve.payer}, re.h, "disarm")
 			require.True(t, r.Halt, r.Fault)
 			spec.armed = nil
+			steps = append(steps, fmt.Sprintf("(mkNCtx [] 0 self, %s, VNull)", vc.ops.ref("RDisarm "+hRef)))
 			continue
 		}
 		sg := []neotest.Signer{ve.payer}
@@ -288,7 +305,7 @@ func runVoteReentry(t testing.TB, st *Stats, distinct map[string]bool, name stri
 		}
 
 		// observed
-		var got []string
+		var got, gotCoq []string
 		for _, ev := range r.Events {
 			if ev.ScriptHash != ve.neofs {
 				continue
@@ -296,6 +313,7 @@ func runVoteReentry(t testing.TB, st *Stats, distinct map[string]bool, name stri
 			items := ev.Item.Value().([]stackitem.Item)
 			switch ev.Name {
 			case "Cheque":
+				gotCoq = append(gotCoq, vc.notif.ref(VList([]string{VIntI(0), VBytesRef(vc.pool.Ref(ItemBytes(items[0]))), VBytesRef(vc.pool.Ref(ItemBytes(items[1]))), VInt(ItemInt(items[2])), VBytesRef(vc.pool.Ref(ItemBytes(items[3])))})))
 				u := -1
 				for i := range re.users {
 					if bytes.Equal(re.users[i], ItemBytes(items[1])) {
@@ -304,8 +322,10 @@ func runVoteReentry(t testing.TB, st *Stats, distinct map[string]bool, name stri
 				}
 				got = append(got, fmt.Sprintf("Cheque|%x|%d|%s", ItemBytes(items[0]), u, ItemInt(items[2])))
 			case "SetConfig":
+				gotCoq = append(gotCoq, vc.notif.ref(VList([]string{VIntI(2), VBytesRef(vc.pool.Ref(ItemBytes(items[0]))), VBytesRef(vc.pool.Ref(ItemBytes(items[1]))), VBytesRef(vc.pool.Ref(ItemBytes(items[2])))})))
 				got = append(got, fmt.Sprintf("SetConfig|%x|%s|%x", ItemBytes(items[0]), ItemBytes(items[1]), ItemBytes(items[2])))
 			default:
+				gotCoq = append(gotCoq, VList([]string{VIntI(99)}))
 				got = append(got, ev.Name)
 			}
 		}
@@ -320,13 +340,17 @@ func runVoteReentry(t testing.TB, st *Stats, distinct map[string]bool, name stri
 			x, _ := util.Uint160DecodeBytesBE(u)
 			accts = append(accts, x)
 		}
+		var gasCoq, cfgCoq, boxCoq []string
 		for i, acc := range accts {
-			if g := ve.E.Chain.GetUtilityTokenBalance(acc); g.Cmp(spec.bal[i]) != 0 {
+			g := ve.E.Chain.GetUtilityTokenBalance(acc)
+			gasCoq = append(gasCoq, VInt(g))
+			if g.Cmp(spec.bal[i]) != 0 {
 				violate(k, fmt.Sprintf("GAS of %s = %s, decided cheques give %s [%s]", []string{"the contract", "P0", "P1", "contract payee H"}[i], g, spec.bal[i], cl))
 			}
 		}
 		it, err := ve.Read(re.h, "payments")
 		require.NoError(t, err)
+		payCoq := VInt(ItemInt(it))
 		if p := ItemInt(it).Int64(); p != int64(spec.payments) {
 			violate(k, fmt.Sprintf("contract payee was paid %d times, decided cheques to it: %d [%s]", p, spec.payments, cl))
 		}
@@ -334,6 +358,11 @@ func runVoteReentry(t testing.TB, st *Stats, distinct map[string]bool, name stri
 			it, err := ve.Read(ve.neofs, "config", key)
 			require.NoError(t, err)
 			_, isNull := it.(stackitem.Null)
+			if isNull {
+				cfgCoq = append(cfgCoq, VNull)
+			} else {
+				cfgCoq = append(cfgCoq, VBytesRef(vc.pool.Ref(ItemBytes(it))))
+			}
 			wantV, has := spec.cfg[string(key)]
 			if has == isNull || has && !bytes.Equal(wantV, ItemBytes(it)) {
 				violate(k, fmt.Sprintf("config(%s) = %x differs from the decided setConfig invocations [%s]", key, ItemBytes(it), cl))
@@ -342,6 +371,7 @@ func runVoteReentry(t testing.TB, st *Stats, distinct map[string]bool, name stri
 		// stored live ballots = reference tally
 		stored := map[string][]string{}
 		for _, bl := range ve.readBallots() {
+			boxCoq = append(boxCoq, VList([]string{VBytesRef(vc.pool.Ref(bl.id)), vc.vbytesList(bl.voters), VIntI(bl.height)}))
 			if h-bl.height > 20 {
 				continue
 			}
@@ -366,9 +396,56 @@ func runVoteReentry(t testing.TB, st *Stats, distinct map[string]bool, name stri
 		for id, vs := range stored {
 			violate(k, fmt.Sprintf("stored live ballot of %q (%d voters) although its tally is empty (decided or never opened) [%s]", id, len(vs), cl))
 		}
+		// the same observation for the Coq model (Model/VoteReentry.v)
+		ws := [][]byte{ve.payer.(neotest.SingleSigner).Account().PublicKey().Bytes(), ve.payer.ScriptHash().BytesBE()}
+		if op.Signer >= 0 {
+			ws = append(ws, ve.pubs[op.Signer], ve.signers[op.Signer].ScriptHash().BytesBE())
+		}
+		status := VNull
+		if !r.Halt {
+			status = VFault
+		}
+		obs := VList([]string{status, "VList " + ListLit(gotCoq), VList(cfgCoq), VList(gasCoq), VList([]string{payCoq}), VList(boxCoq)})
+		steps = append(steps, fmt.Sprintf("(mkNCtx %s %s self, %s, %s)", vc.wit.ref(vc.refs(ws)), ZI(h),
+			vc.ops.ref("RInvoke ("+rcallCoq(op.Call)+")"), obs))
 	}
 	st.Histories++
-	return fired
+	al := make([][]byte, n)
+	for i := range al {
+		al[i] = ve.pubs[i]
+	}
+	selfRef := vc.pool.Ref(ve.neofs.BytesBE())
+	coqCase = fmt.Sprintf("(let self := %s in (%s, %s, %s, %s, %s,\n [%s]))", selfRef, selfRef, vc.refs(al), ZI(fund), hRef,
+		vc.refs([][]byte{ve.neofs.BytesBE(), re.users[0], re.users[1], re.users[2]}), strings.Join(steps, ";\n  "))
+	return fired, coqCase
+}
+
+// writeReentryCases writes cases_C17_re*.v: the model of Model/VoteReentry.v
+// (contract payees with programs, fuel 8) against the recorded observations.
+func writeReentryCases(path string, vc *voteCoq, cases []string) error {
+	var valid []string
+	for i := 0; i < voteNKeys+voteNCands; i++ {
+		valid = append(valid, vc.pool.Ref(voteKey(i).PublicKey().Bytes()))
+	}
+	valid = append(valid, vc.pool.Ref(voteKey(100).PublicKey().Bytes()))
+	var sb strings.Builder
+	sb.WriteString("From Verif Require Import Base.Prelude Model.Vote Model.NeoFSVote Model.VoteReentry.\nLocal Open Scope Z_scope.\n")
+	sb.WriteString(vc.pool.Defs())
+	for _, in := range []*voteIntern{vc.wit, vc.ops, vc.notif} {
+		for _, d := range in.defs {
+			sb.WriteString(d)
+		}
+	}
+	fmt.Fprintf(&sb, "Definition valid_keys : list bytes := %s.\n", ListLit(valid))
+	sb.WriteString(`Definition valid_pub (b : bytes) : bool := existsb (bytes_eqb b) valid_keys.
+Definition check_case (c : bytes * list bytes * Z * bytes * list bytes * list (nctx * rop * val)) :=
+  let '(self, alpha, fund, hc, accts, tr) := c in
+  run_case (rstep_obs valid_pub 8 [[107;49]%N; [107;50]%N] accts [hc])
+           (rinit alpha ∅ (list_to_map [(self, fund)]) [hc]) 0 tr.
+`)
+	sb.WriteString("Definition cases := [\n" + strings.Join(cases, ";\n") + "\n].\n")
+	sb.WriteString("Definition M := Eval vm_compute in failures_from 0 (map check_case cases).\nPrint M.\n")
+	return os.WriteFile(path, []byte(sb.String()), 0o644)
 }
 
 // histories ---------------------------------------------------------------
@@ -505,8 +582,28 @@ func reRandom(r *rand.Rand, n int, length int) reHistory {
 // voteReentryAll runs the re-entrancy part of TestC17.
 func voteReentryAll(t *testing.T, st *Stats, distinct map[string]bool, thorough bool) {
 	fired, hist := 0, 0
+	newRC := func() *voteCoq {
+		vc := newVoteCoq()
+		vc.ops.typ = "rop"
+		return vc
+	}
+	vc := newRC()
+	var cases []string
+	nfile := 0
+	flush := func() {
+		if len(cases) == 0 {
+			return
+		}
+		require.NoError(t, writeReentryCases(filepath.Join(OutDir(), fmt.Sprintf("cases_C17_re%d.v", nfile)), vc, cases))
+		nfile++
+		vc, cases = newRC(), nil
+	}
 	run := func(h reHistory) {
-		f := runVoteReentry(t, st, distinct, h.name, h.n, h.fund, h.ops)
+		f, cc := runVoteReentry(t, vc, st, distinct, h.name, h.n, h.fund, h.ops)
+		cases = append(cases, cc)
+		if len(cases) >= 150 {
+			flush()
+		}
 		fired += f
 		hist++
 		if strings.HasPrefix(h.name, "n=4 (b) ") && strings.Contains(h.name, "before") { // one literal sample
@@ -527,5 +624,6 @@ func voteReentryAll(t *testing.T, st *Stats, distinct map[string]bool, thorough 
 	for i := 0; i < nh; i++ {
 		run(reRandom(r, 1+i%5, ln))
 	}
-	st.Extra["reentry"] = fmt.Sprintf("%d histories with a contract payee whose onNEP17Payment does nothing / votes again for the same id (same or other method, same or other arguments) / votes for another id (first or completing vote) / faults, armed at the start or right before the completing vote, n = 1, 2, 4 (thorough: 7), plus %d random ones; judged against the Go reference of the spec (not sent to Coq: the model's premise is a plain payee); decisions executed: %d", hist-nh, nh, fired)
+	flush()
+	st.Extra["reentry"] = fmt.Sprintf("%d histories with a contract payee whose onNEP17Payment does nothing / votes again for the same id (same or other method, same or other arguments) / votes for another id (first or completing vote) / faults, armed at the start or right before the completing vote, n = 1, 2, 4 (thorough: 7), plus %d random ones; compared in Coq with Model/VoteReentry.v (payee programs, fuel 8; cases_C17_re*.v) and, as a second opinion, judged in Go against a reference of the spec; decisions executed: %d", hist-nh, nh, fired)
 }
